@@ -47,6 +47,25 @@ def rr_script(seq, stype, scen, idents=False):
     return {"scen": scen, "sock": stype, "ops": ops}
 
 
+def shape_scripts(scen0):
+    """the message shape "no frames" (the public API can build it: split_off, pop_front) between ordinary sends: it cannot be put
+    on the wire, so the send must not succeed, must not panic, must write nothing - and the rotation goes on as if it had not been made"""
+    out, scen = [], scen0
+    for t in ("PUSH", "DEALER", "REQ"):
+        ptype = S.PEER_OF[t][0]
+        for n in (0, 1, 2, 3):
+            scen += 1
+            ops = [{"op": "attach", "c": c, "ptype": ptype} for c in range(1, n + 1)]
+            k = 0
+            for body in ([hx("a")], [], [hx("b")], [hx("c"), hx(""), hx("d" * 300)], [], [], [hx("e")], [hx("f")]):
+                k += 1
+                ops.append({"op": "send", "m": body})
+                if t == "REQ" and body and n:
+                    ops += [{"op": "preply", "m": [hx(""), hx("r%d" % k)]}, {"op": "recv"}, {"op": "recv_drop"}]
+            out.append({"scen": scen, "sock": t, "ops": ops, "tag": "no-frames/%d" % n})
+    return out
+
+
 def router_script(seq, scen):
     ops, n, ns, np = [], 0, 0, 0
     live, idents, first, superseded = [], {}, 1, False
